@@ -74,6 +74,11 @@ fn near_misses(n: &NameCfg, class: &str, t0: i64) -> Vec<String> {
                 v.push(format!("{}{sfx}", join(&join(&fixed, "other"), i)));
             }
             "other-suffix" => {
+                // compressed-looking files that lack the configured suffix, or carry another one
+                if !sfx.is_empty() {
+                    v.push(format!("{}.gz", join(&fixed, i)));
+                }
+                v.push(format!("{}.dat.gz", join(&fixed, i)));
                 v.push(format!("{}.bak", join(&fixed, i)));
                 v.push(format!("{}{sfx}.tmp", join(&fixed, i)));
                 v.push(format!("{}.dat", join(&fixed, i)));
